@@ -82,7 +82,7 @@ def run_case(ctx, idx, rng, tier):
     if ops is None:
         ctx.count("discarded_after_C09")
         return
-    t = param.Templ(rng, p=0.5)
+    t = param.Templ(rng, p=0.5, strided=True)
     qids = regB["ids"]
     # (in about a third of the cases a prefix of the calls stays literal: those calls are executed at once on the
     #  template and *replayed* by build, the others are deferred)
